@@ -176,6 +176,26 @@ def _canonicalise_import_aliases(tree):
     return count
 
 
+def _canonicalise_subscripts(tree):
+    """`x[i, :]` is read as `x[i]`: trailing full slices of a subscript tuple select nothing (numpy basic indexing), so no rule depends on them"""
+    count = 0
+    for n in ast.walk(tree):
+        if isinstance(n, ast.Subscript) and isinstance(n.slice, ast.Tuple) and len(n.slice.elts) >= 2:
+            elts = list(n.slice.elts)
+            if any(isinstance(e, ast.Constant) and (e.value is Ellipsis or e.value is None) for e in elts):
+                continue
+
+            def full(e):
+                return isinstance(e, ast.Slice) and e.lower is None and e.upper is None and e.step is None
+            if not full(elts[-1]):
+                continue
+            while len(elts) > 1 and full(elts[-1]):
+                elts.pop()
+            n.slice = elts[0] if len(elts) == 1 else ast.copy_location(ast.Tuple(elts=elts, ctx=ast.Load()), n.slice)
+            count += 1
+    return count
+
+
 _NEGCMP = {ast.NotEq: ast.Eq, ast.IsNot: ast.Is, ast.NotIn: ast.In}
 
 
@@ -315,6 +335,7 @@ class Module:
         self.tree = ast.parse(src, filename=path)
         _canonicalise_comparisons(self.tree)
         self.aliases_canonicalised = 0 if os.environ.get("VERIF_NO_ALIAS_CANON") == "1" else _canonicalise_import_aliases(self.tree)
+        self.subscripts_canonicalised = 0 if os.environ.get("VERIF_NO_SUBSCRIPT_CANON") == "1" else _canonicalise_subscripts(self.tree)
         self.branches_canonicalised = 0 if os.environ.get("VERIF_NO_BRANCH_CANON") == "1" else _canonicalise_branches(self.tree)
         self.temporaries_canonicalised = 0 if os.environ.get("VERIF_NO_TEMP_CANON") == "1" else _canonicalise_temporaries(self.tree)
         self.imports = {}  # local name -> ("module", dotted) | ("from", module, attr)
